@@ -69,6 +69,7 @@ func RuleListen(r *Report, p *Program) {
 	r.Rule("LS5", "shutdown order: signal the driver, wait for its loop to finish, then return nil", 1)
 	r.Rule("LS6", "driver: the socket is closed after the stop signal; the read loop calls the handler with the bytes just read and closes 'done' after the loop", 2)
 	r.Rule("A6s", "the status built for an event is wired exactly like the status GetStatus returns (sibling implementations agree)", 1)
+	r.Rule("LS7", "every delivered status is built from storage allocated for that event alone (no map, slice or struct shared between consecutive deliveries)", 1)
 
 	l, err := NewLayoutEngine(p)
 	if err != nil {
@@ -374,6 +375,28 @@ func RuleListen(r *Report, p *Program) {
 				}
 			}
 			r.Check(bad == "" && nEnd >= 1, "LS3", "Listen:consumer", p.Pos(cf.Pos()), fmt.Sprintf("%d terminating paths", nEnd), bad)
+			// LS7: consecutive events share no storage
+			bad7 := ""
+			n7 := 0
+			for _, pa := range paths {
+				var evs []Event
+				for _, e := range pa.Events {
+					if e.Kind == "call" && strings.HasSuffix(e.Name, ".OnEvent") {
+						evs = append(evs, e)
+					}
+				}
+				if len(evs) < 2 {
+					continue
+				}
+				n7++
+				a, b := storageIDs(evs[0].Args[len(evs[0].Args)-1]), storageIDs(evs[1].Args[len(evs[1].Args)-1])
+				for id := range a {
+					if b[id] {
+						bad7 = "two consecutive events are delivered with shared storage (" + id + "): a status already handed to the callback changes when the next event is decoded"
+					}
+				}
+			}
+			r.Check(bad7 == "" && n7 >= 1, "LS7", "Listen:consumer", p.Pos(cf.Pos()), fmt.Sprintf("%d two-event paths", n7), bad7)
 			// sibling: GetStatus success results
 			gs := map[string]bool{}
 			if ops, _, err := a.WalkOp("GetStatus", 1); err == nil {
@@ -686,4 +709,31 @@ func RuleListenSibling(r *Report, p *Program) {
 	for _, f := range tmp.fatal {
 		r.Fatal("A6s", "listener", f)
 	}
+}
+
+// storageIDs: identities of the mutable storage (local cells, maps) reachable from a value.
+func storageIDs(t *Term) map[string]bool {
+	out := map[string]bool{}
+	seen := map[*Term]bool{}
+	var walk func(x *Term)
+	walk = func(x *Term) {
+		if x == nil || seen[x] {
+			return
+		}
+		seen[x] = true
+		switch x.Op {
+		case "ptr", "sref":
+			if x.Cell != nil && !x.Cell.Sym {
+				out["cell "+x.Cell.Name] = true
+				walk(x.Cell.Val)
+			}
+		case "mapv":
+			out[fmt.Sprintf("map#%d", x.ID)] = true
+		}
+		for _, a := range x.Args {
+			walk(a)
+		}
+	}
+	walk(t)
+	return out
 }
